@@ -41,7 +41,7 @@ Theorem typep_classof_dispatch_agree : forall w i, Inv w -> CacheInv w -> curren
     ((forall f, lin (table w) f n = None) -> P = []) /\
     snd (step w (OClassOf i) [] []) = ONames P /\
     (forall m, snd (step w (OTypep i m) [] []) = OB (memb m (hier_of P))) /\
-    (forall k, snd (call_gf w k i) = match applicable (get_gf w k) (hier_of P) with [] => None | l => Some l end).
+    (forall k, snd (call_gf w k i) = let l := applicable (get_gf w k) (hier_of P) in if callable k l then Some l else None).
 Proof.
   intros w i HI HC Hcur.
   destruct (call_gf_spec w 0 i HI HC Hcur) as [ins [c [Ei [Hr _]]]].
